@@ -1083,9 +1083,10 @@ class Executor:
             return Int(self.float_to_int(a.e, w, s), s)
         if kind.startswith('IntToFloat'):
             sort = F64 if t == 'f64' else F32
+            src = (a.e, a.signed) if (sort is F64 and a.width <= 32) else None
             if a.signed:
-                return Float(z3.fpSignedToFP(RNE, a.e, sort))
-            return Float(z3.fpUnsignedToFP(RNE, a.e, sort))
+                return Float(z3.fpSignedToFP(RNE, a.e, sort), src)
+            return Float(z3.fpUnsignedToFP(RNE, a.e, sort), src)
         if kind.startswith('FloatToFloat'):
             sort = F64 if t == 'f64' else F32
             return Float(z3.fpFPToFP(RNE, a.e, sort))
